@@ -114,7 +114,7 @@ CHECKS['C07'] = {
     'units': ['resp7'],
     'kani': [],
     'technique': 'contract-based deductive verification (Verus) of CoapResponse::new, CoapRequest::from_packet and apply_from_error with whole-message postconditions',
-    'level_text': 'Unbounded proof over all request packets (any header byte, code, message id, token 0-8 bytes, options, payload): a response is prepared iff the type bits are CON/NON; it has version 1, ACK for CON / NON for NON, the request message id and token (and TKL), code 2.05, no options, no payload. apply_from_error returns true iff there is a response and the error has a code, and then changes only code, payload and the Content-Format option; otherwise nothing changes.',
+    'level_text': 'Unbounded proof over all request packets (any header byte, code, message id, token 0-8 bytes, options, payload): a response is prepared iff the type bits are CON/NON; it has version 1, ACK for CON / NON for NON, the request message id and token (and TKL), code 2.05, no options, no payload. apply_from_error returns true iff there is a response and the error has a code, sets the error code and the diagnostic payload then, and in every case changes at most code, payload and the Content-Format option of an existing reply (never version, type, message id, token or another option; the code only when the error has one).',
     'level_note': 'Trusted: Verus/Z3/vstd; R1; R27; closure contracts (R18); String::into_bytes is opaque (payload == utf8_of(message)); uint conversion contracts proved by Kani (C06).',
     'trusted': [T_VERUS, T_R1, T_DEF, T_CLOS, T_UINT, T_EQ if 'T_EQ' in dir() else 'derived PartialEq structural'],
     'explanation': 'unit resp',
@@ -124,7 +124,7 @@ CHECKS['C19'] = {
     'units': ['resp', 'path', 'gpv', 'cmv', 'cmv2'],
     'kani': [],
     'technique': 'contract-based deductive verification (Verus) of the method/status/content-format/observe accessors against the raw message view',
-    'level_text': 'Proof for the claimed accessors, for all packets (whatever was stored before): get/set_method and get/set_status agree with the code field for every variant and every code byte (unnamed ones read as UnKnown); set_content_format replaces the Content-Format option by the minimal uint of the registry id and get_content_format returns the registry entry of the first value (None if absent, longer than 2 bytes or unassigned); set_observe_flag / get_observe_flag likewise through the Observe option (values longer than 4 bytes or other than 0/1 give Err). Unit path: set_path(s) leaves exactly the pieces of s between \'/\' (minus the empty piece before a leading \'/\') as Uri-Path values, in order, and nothing else changed; get_path returns the valid-UTF-8 values joined by \'/\'; theorem: get_path after set_path(s) returns s without one leading \'/\', for every string. Units cmv / cmv2 (coap-message 0.3 / 0.2 views): code() / payload() return the header code and the payload, set_code / set_payload / add_option write exactly those fields (add_option appends to the list of its option number), and the option iterator options() / MessageOptionAdapter::next yields every stored value exactly once as (number, value), grouped by number in ascending number order, values in their stored order, and terminates.',
+    'level_text': 'Proof for the claimed accessors, for all packets (whatever was stored before): get/set_method and get/set_status agree with the code field for every variant and every code byte (unnamed ones read as UnKnown); set_content_format replaces the Content-Format option by the minimal uint of the registry id and get_content_format returns the registry entry of the option value when there is exactly one, as the setter leaves it (None if absent or unassigned; never a named format the first value does not denote); set_observe_flag / get_observe_flag likewise through the Observe option (one value: values longer than 4 bytes or other than 0/1 give Err). Unit path: set_path(s) leaves exactly the pieces of s between \'/\' (minus the empty piece before a leading \'/\') as Uri-Path values, in order, and nothing else changed; get_path returns the values joined by \'/\' when they are all text (everything set_path can store); theorem: get_path after set_path(s) returns s without one leading \'/\', for every string. Units cmv / cmv2 (coap-message 0.3 / 0.2 views): code() / payload() return the header code and the payload, set_code / set_payload / add_option write exactly those fields (add_option appends to the list of its option number), and the option iterator options() / MessageOptionAdapter::next yields every stored value exactly once as (number, value), grouped by number in ascending number order, values in their stored order, and terminates.',
     'level_note': 'Trusted: as C07. Unit path assumes contracts for the std string functions (str::split(char) == split_on, [&str]::join == join_with, as_bytes/from_utf8 inverse on text, is_empty, to_string) and reads `for (i, s) in segs.enumerate()` as the equivalent index loop (R32). Units cmv/cmv2 read each `impl Trait for Packet` block of impl_coap_message*.rs as an inherent impl with methods renamed cm_* (R39): the traits are declared in an external crate that a single-file Verus run cannot link; the crate\'s generic copy routine (set_from_message) is external code and not verified. NOT covered (reported in evidence): get_path_as_vec and the remaining coap-message 0.2/0.3 trait views (external crates cannot be linked into single-file Verus; packet-level Kani harnesses too expensive).',
     'trusted': [T_VERUS, T_R1, T_DEF, T_CLOS, T_UINT, 'std string functions used by set_path/get_path (str::split(char), Enumerate, str::is_empty, str::as_bytes, core::str::from_utf8, [&str]::join, str::to_string): contracts assumed in unit path over the spec functions split_on / join_with / utf8_bytes / utf8_text (UTF-8 decoding inverts encoding: axiom)'],
     'not_covered': ['coap-message: mutate_options (nested iter_mut with a callback), the result slice of payload_mut_with_len (only panic freedom is checked) and the external crate\'s generic copy routine set_from_message'],
@@ -174,7 +174,7 @@ T_BLK = ['callee contracts assumed in unit blk and justified elsewhere: BlockVal
 _BLK_NOTE = 'Trusted: Verus/Z3/vstd; the accessor layer is verified in the same unit (see C01/C06); see trusted_base for the assumed callee contracts and rules R19-R24.'
 CHECKS['C09'] = {
     'level': 'proof', 'units': ['blk'],
-    'kani': [_k('negotiate_within_budget', 'the callee contract used for the 4.13 / size-hint decision: for budgets overhead+28..1280 a request is left unfragmented only if payload + overhead + 12 < budget; size hints are powers of two 16..1024 within the budget', timeout=900)],
+    'kani': [_k('negotiate_within_budget', 'the callee contract used for the 4.13 / size-hint decision: for budgets overhead+28..1280 a request is left unfragmented only if it fits the budget (payload + overhead + payload marker <= budget); size hints are powers of two 16..1024 within the budget', timeout=900)],
     'technique': 'contract-based deductive verification (Verus) of maybe_handle_request_block1 read verbatim, against contracts of its callees; step contract over request, response and per-key state',
     'level_text': 'Unbounded proof of the Block1 step for all requests and states: a non-final block (num, szx) with a full payload p that starts inside or at the end of the buffered data leaves `buffer[0, num*size) ++ p` as the prefix of the buffer (what lies beyond is left open); a non-final block is answered 2.31 Continue with a Block1 option and does not reach the application (Ok(true), request untouched); the final block hands the application buffer[0, num*size) ++ p (zero-filled if the buffer is shorter; payload replaced, buffer released) and adds the Block1 acknowledgement; without a Block1 option an oversized request is answered 4.13 with a Block1 size hint. The upload history (in order, blocks delivered again, over an abandoned upload) follows by induction from the step contract: lemma_b1_step_prefix is the induction step, theorem_c09_upload_delivers_body the conclusion (same unit).',
     'level_note': _BLK_NOTE + ' Known finding D8 (duplicate FINAL block re-delivers a body) is outside the step contract and listed in known_findings.txt.',
@@ -209,9 +209,9 @@ CHECKS['C10'] = {
 }
 CHECKS['C12'] = {
     'level': 'proof', 'units': ['blk', 'key', 'gpv'], 'kani': [],
-    'technique': 'Verus frame conditions on the verbatim entry points: only the state under the request key is touched; replies keep message id, token and token length of the current request; RequestCacheKey::from verified to store exactly (method code byte, path segments, endpoint) with a lemma that keys differ iff one of the three differs',
+    'technique': 'Verus frame conditions on the verbatim entry points: only the state under the request key is touched; replies keep message id, token and token length of the current request; RequestCacheKey::from verified to store (a byte that separates methods - the method byte or the request code byte -, path segments, endpoint) with a lemma that requests differing in method, path or endpoint get keys that differ',
     'level_text': 'Proof relative to the cache contract (R24): intercept_request / intercept_response read and write only the state stored under key_of(request) - every other key keeps its state (or expires) - so transfers with different keys cannot observe each other; and on every path, including blocks served from the cache via packet_clone_limited, the reply keeps the message id, token and token-length field that CoapResponse::new took from the request being answered.',
-    'level_note': _BLK_NOTE + ' Unit key: the real From<&CoapRequest> impl of RequestCacheKey is verified (fields == (u8 of Request(method), decoded Uri-Path segments in order, clone of source)); lemma_keys_differ: two requests share all key fields iff they agree in method, segment list and endpoint (segmentation included: the key holds the list, not a joined string). The contract of get_path_as_vec that unit key relies on (Ok(decoded segments in order) iff every Uri-Path value is valid UTF-8) is proved on the real function in unit gpv (iterator map/collect read through wrappers R33/R33b with the real closures); assumed: String::from_utf8 semantics (utf8_text) and that the derived Ord/Eq of the key struct are field-wise. The composition blk.key_of == id of these fields is by construction of the cache abstraction, not proved.',
+    'level_note': _BLK_NOTE + ' Unit key: the real From<&CoapRequest> impl of RequestCacheKey is verified (fields == (method byte or code byte, decoded Uri-Path segments in order, clone of source)); lemma_keys_differ: two requests whose keys agree in all fields agree in method, segment list and endpoint (segmentation included: the key holds the list, not a joined string). The contract of get_path_as_vec that unit key relies on (Ok(decoded segments in order) iff every Uri-Path value is valid UTF-8) is proved on the real function in unit gpv (iterator map/collect read through wrappers R33/R33b with the real closures); assumed: String::from_utf8 semantics (utf8_text) and that the derived Ord/Eq of the key struct are field-wise. The composition blk.key_of == id of these fields is by construction of the cache abstraction, not proved.',
     'trusted': [T_VERUS, T_R1] + T_BLK,
     'not_covered': ['the external lru_time_cache behaves as a per-key map', 'a Uri-Path that is not valid UTF-8 is keyed like the empty path (outside the quantifier of C12)'],
     'explanation': 'units blk, key',
